@@ -149,6 +149,26 @@ theorem reader_attrs {α : Type} (src : Source α) (h : SrcOK src) :
   obtain ⟨r, hr, b⟩ := build_built src h
   exact ⟨r, hr, attrs_of_built src r b⟩
 
+/-! ### channel selection -/
+
+/-- an index list within `[-w, w)` selects exactly one cell per entry, in the order written, negative entries
+counting from the end (no entry is dropped by the `filterMap` of `selCols`) -/
+theorem selCols_idx {β : Type} (l : List Int) (row : List β)
+    (hl : ∀ i ∈ l, -(row.length : Int) ≤ i ∧ i < row.length) (d : β) :
+    selCols (.idx l) row =
+      l.map fun i => (row[(if i < 0 then i + (row.length : Int) else i).toNat]?).getD d := by
+  unfold selCols
+  simp only []
+  induction l with
+  | nil => rfl
+  | cons i t ih =>
+    have hi := hl i (List.mem_cons_self ..)
+    have hlt : (if i < 0 then i + (row.length : Int) else i).toNat < row.length := by
+      split <;> omega
+    rw [List.filterMap_cons, List.getElem?_eq_getElem hlt]
+    simp only [List.map_cons, List.getElem?_eq_getElem hlt, Option.getD_some]
+    rw [ih (fun j hj => hl j (List.mem_cons_of_mem _ hj))]
+
 /-! ### `__getitem__` -/
 
 theorem listChunks_some {α : Type} (parts : List (List α)) (l : List Nat) (hne : l ≠ [])
